@@ -1,13 +1,13 @@
 SPECIFICATION Spec
 CONSTANTS
   K = 2
-  WProgs <- W31
-  RProgs <- R31
+  WProgs <- W21
+  RProgs <- R21
   RawW = FALSE
   RawR = FALSE
   RawTotal = 0
-  Tmos <- T012
-  MaxT = 3
+  Tmos <- T1
+  MaxT = 2
   Spurious = TRUE
   Interrupts = TRUE
   Bug = "none"
